@@ -1,10 +1,20 @@
 /-
   C13 — slicing a range query is invisible in its result.
-  Proved here: the pairwise behaviour of `Overlaps` on the class of ranges that slices produce
-  (adjacent ⇒ hull in both argument orders, separated ⇒ no merge in both orders, any merge is the
-  hull of two connected ranges), the per-slice folding of samples into maximal runs, and the slice
-  plan facts. The order-independence of the `MergeRanges` fixpoint over whole lists is NOT proved
-  (see `C13_statement` and DESIGN.md); it is covered by the correspondence and end-to-end runs.
+  Proved here, for the model of range.go / range_normalize.go in Model/Range.lean:
+  * `C13_holds : C13_statement` — the property at full strength: for every start, end, lookback and step ≥ 1s, every
+    presence pattern of a series and every arrival order of the slice answers, the merged ranges are exactly the runs of
+    one unsliced evaluation on the same grid.  Built from
+  * `overlaps_stair`, `absorb_eq`, `fam_step`, `cov_step`, `mergePass_spec`, `rec_spec` — the MergeRanges fixpoint over
+    whole lists: a family invariant (`Fam`: ranges strictly ordered in both coordinates, touching or more than a step
+    apart, nothing strictly between two near ranges) is preserved by every inner-loop step, coverage is preserved, the
+    fuel suffices, a quiet pass is a fixpoint;
+  * `canon_unique`, `mergeSeries_canon`, `merge_order_independent`, `merge_is_canonical` — the result is the unique
+    canonical list (sorted, every two ranges more than a step apart) covering the same seconds, so it does not depend
+    on the arrival order;
+  * `fam_of_aligned`, `fold_inv`, `outRuns_facts`, `sliceRanges_eq` — what a slice hands over (AppendSampleToRanges +
+    ExpandRangesEnd on grid samples) is grid aligned and disjoint, hence a family; the unsliced runs are canonical;
+  * `plan_ok`, `sliced_eq_unsliced` — the slice plan of RangeQuery tiles the grid of its first slice.
+  Earlier, pairwise results kept: adjacent ⇒ hull in both argument orders, separated ⇒ no merge, any merge is a hull.
 -/
 import PintModel.Model.Range
 import PintModel.Spec.Presence
@@ -469,7 +479,7 @@ theorem merge_two_separated (a b : MTR) (step : Int) (hs : 0 ≤ step) (h : Sepa
   · simp [mergeSeries, mergeRec, mergePass, absorb, h1, sortByStart, insertSorted, hle]
   · simp [mergeSeries, mergeRec, mergePass, absorb, h2, sortByStart, insertSorted, hlt]
 
-/-! ### the full statement (NOT proved: order-independence of the MergeRanges fixpoint over whole lists) -/
+/-! ### the full statement (proved at the end of this file: `C13_holds`) -/
 
 /-- sample instants of one slice `[s, e]` on its own grid -/
 def gridSamples (present : Int → Bool) (s e step : Int) : List Int :=
@@ -1085,5 +1095,654 @@ theorem merge_is_canonical (step : Int) (hs : 1 ≤ step) (fp : Nat) (l R : List
     (hR : Canon step fp R) (hc : ∀ t, covered R t ↔ covered l t) : mergeSeries step l = R := by
   obtain ⟨c1, v1⟩ := mergeSeries_canon step hs fp l h
   exact canon_unique step hs fp _ _ c1 hR (fun t => (v1 t).trans (hc t).symm)
+
+/-! ## what the slices hand over is a family; the unsliced runs are canonical -/
+
+/-- two instants on one grid are equal or at least a step apart -/
+theorem grid_gap (o step a b : Int) (hs : 1 ≤ step) (ha : step ∣ (a - o)) (hb : step ∣ (b - o)) (hab : a ≤ b) :
+    a = b ∨ a + step ≤ b := by
+  have hd : step ∣ (b - a) := by
+    have := Int.dvd_sub hb ha
+    have e : b - o - (a - o) = b - a := by omega
+    rwa [e] at this
+  by_cases h0 : b - a = 0
+  · left; omega
+  · right
+    have := Int.le_of_dvd (by omega) hd
+    omega
+
+/-- a range whose start and (end + 1s) lie on the grid from `o`, and that is at least one step long: what
+`AppendSampleToRanges` + `ExpandRangesEnd` make of grid samples -/
+def AlignedTo (o step : Int) (x : MTR) : Prop := step ∣ (x.s - o) ∧ step ∣ (x.e + 1 - o) ∧ x.s + step ≤ x.e + 1
+
+def Disjoint (x y : MTR) : Prop := x.e < y.s ∨ y.e < x.s
+
+theorem disj_of_mem {F : List MTR} (h : F.Pairwise Disjoint) {x y : MTR} (hx : x ∈ F) (hy : y ∈ F) (hne : x ≠ y) : Disjoint x y := by
+  induction F with
+  | nil => simp at hx
+  | cons a F ih =>
+    rw [List.pairwise_cons] at h
+    rcases List.mem_cons.mp hx with rfl | hx' <;> rcases List.mem_cons.mp hy with rfl | hy'
+    · exact absurd rfl hne
+    · exact h.1 y hy'
+    · have := h.1 x hx'; unfold Disjoint at *; omega
+    · exact ih h.2 hx' hy'
+
+/-- pairwise disjoint grid-aligned ranges of one series keep the family invariant -/
+theorem fam_of_aligned (o step : Int) (hs : 1 ≤ step) (fp : Nat) (l : List MTR)
+    (hfp : ∀ x ∈ l, x.fp = fp) (hal : ∀ x ∈ l, AlignedTo o step x) (hd : l.Pairwise Disjoint) : Fam step fp l := by
+  have key : ∀ x ∈ l, ∀ y ∈ l, x.e < y.s → y.s = x.e + 1 ∨ x.e + step < y.s := by
+    intro x hx y hy hlt
+    have := grid_gap o step (x.e + 1) y.s hs (hal x hx).2.1 (hal y hy).1 (by omega)
+    omega
+  refine ⟨?_, ?_, ?_⟩
+  · intro x hx
+    have := (hal x hx).2.2
+    exact ⟨hfp x hx, by omega⟩
+  · refine hd.imp_of_mem ?_
+    intro x y hx hy hxy
+    have lx := (hal x hx).2.2
+    have ly := (hal y hy).2.2
+    unfold Disjoint at hxy
+    unfold Rel
+    rcases hxy with h | h
+    · have := key x hx y hy h; omega
+    · have := key y hy x hx h; omega
+  · intro x hx y hy z hz hxy hyz
+    have lx := (hal x hx).2.2
+    have ly := (hal y hy).2.2
+    have lz := (hal z hz).2.2
+    have d1 := disj_of_mem hd hx hy (by intro e; subst e; omega)
+    have d2 := disj_of_mem hd hy hz (by intro e; subst e; omega)
+    unfold Disjoint at d1 d2
+    have k2 := key y hy z hz (by omega)
+    omega
+
+/-- sample instants on the grid from `o`, strictly ascending -/
+def OnGrid (o step : Int) (ts : List Int) : Prop := (∀ u ∈ ts, step ∣ (u - o)) ∧ ts.Pairwise (· < ·)
+
+/-- runs collected so far (most recent first): first and last sample of each, at least two steps between runs -/
+structure RunsInv (o step : Int) (acc : List (Int × Int)) : Prop where
+  pts : ∀ p ∈ acc, p.1 ≤ p.2 ∧ step ∣ (p.1 - o) ∧ step ∣ (p.2 - o)
+  sep : acc.Pairwise fun p q => q.2 + 2 * step ≤ p.1
+
+/-- seconds covered by the runs once every run is stretched to the end of its last sample's step -/
+def pcov (step : Int) (acc : List (Int × Int)) (t : Int) : Prop := ∃ p ∈ acc, p.1 ≤ t ∧ t ≤ p.2 + step - 1
+
+theorem addRun_inv (o step : Int) (hs : 1 ≤ step) (acc : List (Int × Int)) (t : Int) (h : RunsInv o step acc)
+    (ht : step ∣ (t - o)) (hlt : ∀ p ∈ acc, p.2 < t) :
+    RunsInv o step (addRun step acc t) ∧
+    (∀ p ∈ addRun step acc t, p.2 ≤ t) ∧
+    (∀ t', pcov step (addRun step acc t) t' ↔ pcov step acc t' ∨ (t ≤ t' ∧ t' ≤ t + step - 1)) ∧
+    (∀ p ∈ addRun step acc t, (p.1 = t ∨ ∃ q ∈ acc, p.1 = q.1) ∧ (p.2 = t ∨ ∃ q ∈ acc, p.2 = q.2)) := by
+  cases acc with
+  | nil =>
+    simp only [addRun]
+    refine ⟨⟨?_, by simp⟩, ?_, ?_, ?_⟩
+    · intro p hp; simp at hp; subst hp; exact ⟨Int.le_refl _, ht, ht⟩
+    · intro p hp; simp at hp; subst hp; exact Int.le_refl _
+    · intro t'; simp [pcov]
+    · intro p hp; simp at hp; subst hp; simp
+  | cons hd rest =>
+    obtain ⟨a, b⟩ := hd
+    have hab := h.pts (a, b) (List.mem_cons_self ..)
+    have hbt := hlt (a, b) (List.mem_cons_self ..)
+    simp only at hab hbt
+    have hsep := List.pairwise_cons.mp h.sep
+    have gap := grid_gap o step b t hs hab.2.2 ht (by omega)
+    simp only [addRun]
+    split
+    · rename_i hle
+      have htb : t = b + step := by omega
+      refine ⟨⟨?_, ?_⟩, ?_, ?_, ?_⟩
+      · intro p hp
+        rcases List.mem_cons.mp hp with rfl | hp'
+        · exact ⟨by simp only; omega, hab.2.1, ht⟩
+        · exact h.pts p (List.mem_cons_of_mem _ hp')
+      · rw [List.pairwise_cons]
+        exact ⟨fun q hq => hsep.1 q hq, hsep.2⟩
+      · intro p hp
+        rcases List.mem_cons.mp hp with rfl | hp'
+        · exact Int.le_refl _
+        · have := hlt p (List.mem_cons_of_mem _ hp'); omega
+      · intro t'
+        simp only [pcov, List.mem_cons, exists_eq_or_imp]
+        constructor
+        · rintro (⟨h1, h2⟩ | hr)
+          · by_cases hc : t' ≤ b + step - 1
+            · exact Or.inl (Or.inl ⟨h1, hc⟩)
+            · exact Or.inr ⟨by omega, h2⟩
+          · exact Or.inl (Or.inr hr)
+        · rintro ((⟨h1, h2⟩ | hr) | ⟨h1, h2⟩)
+          · exact Or.inl ⟨h1, by omega⟩
+          · exact Or.inr hr
+          · exact Or.inl ⟨by omega, h2⟩
+      · intro p hp
+        rcases List.mem_cons.mp hp with rfl | hp'
+        · exact ⟨Or.inr ⟨(a, b), List.mem_cons_self .., rfl⟩, Or.inl rfl⟩
+        · exact ⟨Or.inr ⟨p, List.mem_cons_of_mem _ hp', rfl⟩, Or.inr ⟨p, List.mem_cons_of_mem _ hp', rfl⟩⟩
+    · rename_i hnle
+      have hfar : b + step ≤ t := by omega
+      have gap2 := grid_gap o step (b + step) t hs (by
+        have : b + step - o = (b - o) + step := by omega
+        rw [this]; exact Int.dvd_add hab.2.2 (Int.dvd_refl _)) ht hfar
+      refine ⟨⟨?_, ?_⟩, ?_, ?_, ?_⟩
+      · intro p hp
+        rcases List.mem_cons.mp hp with rfl | hp'
+        · exact ⟨Int.le_refl _, ht, ht⟩
+        · exact h.pts p hp'
+      · rw [List.pairwise_cons]
+        refine ⟨?_, h.sep⟩
+        intro q hq
+        rcases List.mem_cons.mp hq with rfl | hq'
+        · simp only; omega
+        · have := hsep.1 q hq'
+          simp only at this ⊢; omega
+      · intro p hp
+        rcases List.mem_cons.mp hp with rfl | hp'
+        · exact Int.le_refl _
+        · have := hlt p hp'; omega
+      · intro t'
+        simp only [pcov, List.mem_cons, exists_eq_or_imp]
+        constructor
+        · rintro (⟨h1, h2⟩ | hr)
+          · exact Or.inr ⟨h1, h2⟩
+          · exact Or.inl hr
+        · rintro (hr | ⟨h1, h2⟩)
+          · exact Or.inr hr
+          · exact Or.inl ⟨h1, h2⟩
+      · intro p hp
+        rcases List.mem_cons.mp hp with rfl | hp'
+        · exact ⟨Or.inl rfl, Or.inl rfl⟩
+        · exact ⟨Or.inr ⟨p, hp', rfl⟩, Or.inr ⟨p, hp', rfl⟩⟩
+
+theorem fold_inv (o step : Int) (hs : 1 ≤ step) (ts : List Int) :
+    ∀ acc, RunsInv o step acc → OnGrid o step ts → (∀ p ∈ acc, ∀ u ∈ ts, p.2 < u) →
+      RunsInv o step (ts.foldl (addRun step) acc) ∧
+      (∀ t', pcov step (ts.foldl (addRun step) acc) t' ↔ pcov step acc t' ∨ ∃ u ∈ ts, u ≤ t' ∧ t' ≤ u + step - 1) ∧
+      (∀ p ∈ ts.foldl (addRun step) acc, (p.1 ∈ ts ∨ ∃ q ∈ acc, p.1 = q.1) ∧ (p.2 ∈ ts ∨ ∃ q ∈ acc, p.2 = q.2)) := by
+  induction ts with
+  | nil =>
+    intro acc h _ _
+    simp only [List.foldl_nil]
+    refine ⟨h, ?_, ?_⟩
+    · intro t'; simp
+    · intro p hp; exact ⟨Or.inr ⟨p, hp, rfl⟩, Or.inr ⟨p, hp, rfl⟩⟩
+  | cons t ts ih =>
+    intro acc h hg hlt
+    have hgp := List.pairwise_cons.mp hg.2
+    obtain ⟨a1, a2, a3, a4⟩ := addRun_inv o step hs acc t h (hg.1 t (List.mem_cons_self ..)) (fun p hp => hlt p hp t (List.mem_cons_self ..))
+    have hg' : OnGrid o step ts := ⟨fun u hu => hg.1 u (List.mem_cons_of_mem _ hu), hgp.2⟩
+    obtain ⟨b1, b2, b3⟩ := ih (addRun step acc t) a1 hg' (fun p hp u hu => by
+      have := a2 p hp; have := hgp.1 u hu; omega)
+    simp only [List.foldl_cons]
+    refine ⟨b1, ?_, ?_⟩
+    · intro t'
+      rw [b2 t', a3 t']
+      simp only [List.mem_cons, exists_eq_or_imp]
+      constructor
+      · rintro ((h1 | h2) | h3)
+        · exact Or.inl h1
+        · exact Or.inr (Or.inl h2)
+        · exact Or.inr (Or.inr h3)
+      · rintro (h1 | h2 | h3)
+        · exact Or.inl (Or.inl h1)
+        · exact Or.inl (Or.inr h2)
+        · exact Or.inr h3
+    · intro p hp
+      obtain ⟨c1, c2⟩ := b3 p hp
+      constructor
+      · rcases c1 with c | ⟨q, hq, e⟩
+        · exact Or.inl (List.mem_cons_of_mem _ c)
+        · rcases (a4 q hq).1 with e' | ⟨q', hq', e'⟩
+          · exact Or.inl (by rw [e, e']; exact List.mem_cons_self ..)
+          · exact Or.inr ⟨q', hq', by rw [e, e']⟩
+      · rcases c2 with c | ⟨q, hq, e⟩
+        · exact Or.inl (List.mem_cons_of_mem _ c)
+        · rcases (a4 q hq).2 with e' | ⟨q', hq', e'⟩
+          · exact Or.inl (by rw [e, e']; exact List.mem_cons_self ..)
+          · exact Or.inr ⟨q', hq', by rw [e, e']⟩
+
+/-- the ranges one evaluation yields for the samples `ts` of one series: runs, stretched by `ExpandRangesEnd` -/
+def outRuns (step : Int) (fp : Nat) (ts : List Int) : List MTR := expandEnds step ((runs step ts).map (mk fp))
+
+def stretch (step : Int) (fp : Nat) (p : Int × Int) : MTR := ⟨fp, p.1, p.2 + (step - 1)⟩
+
+theorem outRuns_eq (step : Int) (fp : Nat) (ts : List Int) :
+    outRuns step fp ts = ((ts.foldl (addRun step) []).reverse).map (stretch step fp) := by
+  simp [outRuns, expandEnds, runs, mk, stretch, List.map_map, Function.comp_def]
+
+theorem base_inv_runs (o step : Int) : RunsInv o step [] := ⟨by simp, by simp⟩
+
+/-- everything the fold gives for samples on a grid, read off `fold_inv` -/
+theorem outRuns_facts (o step : Int) (hs : 1 ≤ step) (fp : Nat) (ts : List Int) (hg : OnGrid o step ts) :
+    (∀ x ∈ outRuns step fp ts, x.fp = fp ∧ AlignedTo o step x ∧ x.s ∈ ts ∧ x.e - (step - 1) ∈ ts) ∧
+    (outRuns step fp ts).Pairwise Disjoint ∧
+    (∀ t, covered (outRuns step fp ts) t ↔ ∃ u ∈ ts, u ≤ t ∧ t ≤ u + step - 1) ∧
+    Canon step fp (outRuns step fp ts) := by
+  obtain ⟨i1, i2, i3⟩ := fold_inv o step hs ts [] (base_inv_runs o step) hg (by simp)
+  have hmem : ∀ x, x ∈ outRuns step fp ts ↔ ∃ p ∈ ts.foldl (addRun step) [], x = stretch step fp p := by
+    intro x
+    rw [outRuns_eq]
+    simp only [List.mem_map, List.mem_reverse]
+    constructor
+    · rintro ⟨p, hp, rfl⟩; exact ⟨p, hp, rfl⟩
+    · rintro ⟨p, hp, rfl⟩; exact ⟨p, hp, rfl⟩
+  have hal : ∀ x ∈ outRuns step fp ts, x.fp = fp ∧ AlignedTo o step x ∧ x.s ∈ ts ∧ x.e - (step - 1) ∈ ts := by
+    intro x hx
+    obtain ⟨p, hp, rfl⟩ := (hmem x).mp hx
+    obtain ⟨h1, h2, h3⟩ := i1.pts p hp
+    obtain ⟨e1, e2⟩ := i3 p hp
+    refine ⟨rfl, ⟨h2, ?_, by simp only [stretch]; omega⟩, ?_, ?_⟩
+    · simp only [stretch]
+      have : p.2 + (step - 1) + 1 - o = (p.2 - o) + step := by omega
+      rw [this]; exact Int.dvd_add h3 (Int.dvd_refl _)
+    · rcases e1 with e | ⟨q, hq, _⟩
+      · exact e
+      · simp at hq
+    · rcases e2 with e | ⟨q, hq, _⟩
+      · simp only [stretch]
+        have : p.2 + (step - 1) - (step - 1) = p.2 := by omega
+        rw [this]; exact e
+      · simp at hq
+  -- the runs in ascending order
+  have hrev : ((ts.foldl (addRun step) []).reverse).Pairwise fun q p => q.2 + 2 * step ≤ p.1 := by
+    rw [List.pairwise_reverse]; exact i1.sep
+  have hpts : ∀ p ∈ (ts.foldl (addRun step) []).reverse, p.1 ≤ p.2 := fun p hp => (i1.pts p (List.mem_reverse.mp hp)).1
+  refine ⟨hal, ?_, ?_, ?_⟩
+  · rw [outRuns_eq, List.pairwise_map]
+    refine hrev.imp ?_
+    intro q p h
+    left; simp only [stretch]; omega
+  · intro t
+    constructor
+    · rintro ⟨x, hx, h1, h2⟩
+      obtain ⟨p, hp, rfl⟩ := (hmem x).mp hx
+      have := (i2 t).mp ⟨p, hp, h1, by simp only [stretch] at h2; omega⟩
+      rcases this with ⟨q, hq, _⟩ | h
+      · simp at hq
+      · exact h
+    · intro h
+      obtain ⟨p, hp, h1, h2⟩ := (i2 t).mpr (Or.inr h)
+      exact ⟨stretch step fp p, (hmem _).mpr ⟨p, hp, rfl⟩, h1, by simp only [stretch]; omega⟩
+  · refine ⟨fun x hx => ⟨(hal x hx).1, by have := (hal x hx).2.1.2.2; omega⟩, ?_, ?_⟩
+    · rw [outRuns_eq, List.pairwise_map]
+      refine hrev.imp_of_mem ?_
+      intro q p hq hp h
+      have := hpts q hq
+      simp only [stretch]; omega
+    · unfold NoNear
+      rw [outRuns_eq, List.pairwise_map]
+      refine hrev.imp_of_mem ?_
+      intro q p hq hp h
+      have := hpts q hq
+      have hne : ¬ ((stretch step fp q).s ≤ (stretch step fp p).e + step ∧ (stretch step fp p).s ≤ (stretch step fp q).e + step) := by
+        simp only [stretch]; omega
+      simp only [near, decide_eq_false_iff_not]
+      exact hne
+
+theorem range_count (s e step : Int) (hs : 1 ≤ step) (k : Nat) :
+    k < ((e - s) / step + 1).toNat ↔ s + (k : Int) * step ≤ e := by
+  have hpos : 0 < step := by omega
+  constructor
+  · intro h
+    have h1 : (k : Int) < (e - s) / step + 1 := by omega
+    have h2 : (k : Int) ≤ (e - s) / step := by omega
+    have := (Int.le_ediv_iff_mul_le hpos).mp h2
+    omega
+  · intro h
+    have h2 : (k : Int) ≤ (e - s) / step := (Int.le_ediv_iff_mul_le hpos).mpr (by omega)
+    omega
+
+theorem gs_mem (present : Int → Bool) (s e step : Int) (hs : 1 ≤ step) (u : Int) :
+    u ∈ gridSamples present s e step ↔ ∃ k : Nat, u = s + (k : Int) * step ∧ u ≤ e ∧ present u = true := by
+  unfold gridSamples
+  simp only [List.mem_filterMap, List.mem_range]
+  constructor
+  · rintro ⟨k, hk, h⟩
+    split at h
+    · rename_i hp
+      simp only [Option.some.injEq] at h
+      subst h
+      exact ⟨k, rfl, (range_count s e step hs k).mp hk, hp⟩
+    · cases h
+  · rintro ⟨k, rfl, hle, hp⟩
+    exact ⟨k, (range_count s e step hs k).mpr hle, by simp [hp]⟩
+
+theorem gs_pairwise (present : Int → Bool) (s e step : Int) (hs : 1 ≤ step) :
+    (gridSamples present s e step).Pairwise (· < ·) := by
+  unfold gridSamples
+  rw [List.pairwise_filterMap]
+  refine (List.pairwise_lt_range).imp ?_
+  intro a b hab u hu v hv
+  dsimp only at hu hv
+  split at hu
+  · split at hv
+    · simp only [Option.some.injEq] at hu hv
+      subst hu; subst hv
+      have h1 : (a : Int) + 1 ≤ (b : Int) := by omega
+      have := Int.mul_le_mul_of_nonneg_right h1 (show (0 : Int) ≤ step by omega)
+      have e : ((a : Int) + 1) * step = (a : Int) * step + step := by rw [Int.add_mul]; omega
+      omega
+    · cases hv
+  · cases hu
+
+theorem gs_ongrid (present : Int → Bool) (o s e step : Int) (hs : 1 ≤ step) (ho : step ∣ (s - o)) :
+    OnGrid o step (gridSamples present s e step) := by
+  refine ⟨?_, gs_pairwise present s e step hs⟩
+  intro u hu
+  obtain ⟨k, rfl, _, _⟩ := (gs_mem present s e step hs u).mp hu
+  have : s + (k : Int) * step - o = (s - o) + (k : Int) * step := by omega
+  rw [this]
+  exact Int.dvd_add ho (Int.dvd_mul_left _ _)
+
+theorem asc_of_pairwise (ts : List Int) : ∀ lo, ts.Pairwise (· < ·) → (∀ u ∈ ts, lo < u) → Asc lo ts := by
+  induction ts with
+  | nil => intro _ _ _; trivial
+  | cons t ts ih =>
+    intro lo hp hlo
+    rw [List.pairwise_cons] at hp
+    exact ⟨hlo t (List.mem_cons_self ..), ih t hp.2 hp.1⟩
+
+/-- what one slice answers for one series is the stretched runs of its own grid samples -/
+theorem sliceRanges_eq (step : Int) (hs : 1 ≤ step) (fp : Nat) (present : Int → Bool) (sl : TR) :
+    sliceRanges step fp present sl = outRuns step fp (gridSamples present sl.s sl.e step) := by
+  unfold sliceRanges outRuns
+  have hasc : Asc (sl.s - 1) (gridSamples present sl.s sl.e step) := by
+    refine asc_of_pairwise _ _ (gs_pairwise present sl.s sl.e step hs) ?_
+    intro u hu
+    obtain ⟨k, rfl, _, _⟩ := (gs_mem present sl.s sl.e step hs u).mp hu
+    have : (0 : Int) ≤ (k : Int) * step := Int.mul_nonneg (by omega) (by omega)
+    omega
+  rw [append_is_runs step (by omega) fp (sl.s - 1) _ hasc]
+
+/-- what the merge needs from a slice plan, relative to the grid that starts at `o` and ends at `end_` -/
+structure SlicesOK (o step end_ : Int) (slices : List TR) : Prop where
+  aligned : ∀ sl ∈ slices, step ∣ (sl.s - o)
+  ordered : slices.Pairwise fun a b => a.e < b.s
+  within : ∀ sl ∈ slices, o ≤ sl.s ∧ sl.e ≤ end_
+  covers : ∀ k : Nat, o + (k : Int) * step ≤ end_ → ∃ sl ∈ slices, sl.s ≤ o + (k : Int) * step ∧ o + (k : Int) * step ≤ sl.e
+
+/-- a non-negative multiple of the step, as a natural number of steps -/
+theorem steps_of_dvd (step d : Int) (hs : 1 ≤ step) (hd : step ∣ d) (h0 : 0 ≤ d) : ∃ k : Nat, d = (k : Int) * step := by
+  obtain ⟨c, hc⟩ := hd
+  have hc0 : 0 ≤ c := by
+    by_cases h : 0 ≤ c
+    · exact h
+    · exfalso
+      have h1 : c ≤ -1 := by omega
+      have := Int.mul_le_mul_of_nonneg_left h1 (show (0 : Int) ≤ step by omega)
+      have e : step * -1 = -step := by omega
+      omega
+  exact ⟨c.toNat, by rw [hc, Int.toNat_of_nonneg hc0, Int.mul_comm]⟩
+
+/-- **Slicing is invisible.** For every grid (origin `o`, step ≥ 1s, end), every presence pattern of a series, every
+slice plan that tiles the grid (`SlicesOK`) and every order in which the slice answers arrive: folding each answer into
+ranges, stretching the ends and merging gives exactly the ranges of ONE evaluation over the whole grid. -/
+theorem sliced_eq_unsliced (o step end_ : Int) (hs : 1 ≤ step) (fp : Nat) (present : Int → Bool)
+    (slices arrival : List TR) (ok : SlicesOK o step end_ slices) (hp : arrival.Perm slices) :
+    mergeSeries step (arrival.flatMap (sliceRanges step fp present)) = outRuns step fp (gridSamples present o end_ step) := by
+  have hf : ∀ sl, sliceRanges step fp present sl = outRuns step fp (gridSamples present sl.s sl.e step) :=
+    fun sl => sliceRanges_eq step hs fp present sl
+  have facts : ∀ sl ∈ slices, _ := fun sl hsl =>
+    outRuns_facts o step hs fp (gridSamples present sl.s sl.e step) (gs_ongrid present o sl.s sl.e step hs (ok.aligned sl hsl))
+  have whole := outRuns_facts o step hs fp (gridSamples present o end_ step)
+    (gs_ongrid present o o end_ step hs (by simp))
+  -- every range of every slice answer
+  have hmem : ∀ x ∈ slices.flatMap (sliceRanges step fp present), ∃ sl ∈ slices, x ∈ outRuns step fp (gridSamples present sl.s sl.e step) := by
+    intro x hx
+    obtain ⟨sl, hsl, hx'⟩ := List.mem_flatMap.mp hx
+    exact ⟨sl, hsl, by rw [← hf sl]; exact hx'⟩
+  have hfam : Fam step fp (slices.flatMap (sliceRanges step fp present)) := by
+    refine fam_of_aligned o step hs fp _ ?_ ?_ ?_
+    · intro x hx
+      obtain ⟨sl, hsl, hx'⟩ := hmem x hx
+      exact ((facts sl hsl).1 x hx').1
+    · intro x hx
+      obtain ⟨sl, hsl, hx'⟩ := hmem x hx
+      exact ((facts sl hsl).1 x hx').2.1
+    · rw [List.pairwise_flatMap]
+      refine ⟨?_, ?_⟩
+      · intro sl hsl; rw [hf sl]; exact (facts sl hsl).2.1
+      · refine ok.ordered.imp_of_mem ?_
+        intro a b ha hb hab x hx y hy
+        rw [hf a] at hx; rw [hf b] at hy
+        obtain ⟨_, ax, _, xe⟩ := (facts a ha).1 x hx
+        obtain ⟨_, ay, ys, _⟩ := (facts b hb).1 y hy
+        obtain ⟨k1, e1, l1, _⟩ := (gs_mem present a.s a.e step hs _).mp xe
+        obtain ⟨k2, e2, _, _⟩ := (gs_mem present b.s b.e step hs _).mp ys
+        have hk2 : (0 : Int) ≤ (k2 : Int) * step := Int.mul_nonneg (by omega) (by omega)
+        -- last sample of x ≤ a.e < b.s ≤ first sample of y, both on the grid
+        have hlt : x.e + 1 ≤ y.s + step - 1 := by omega
+        have gap := grid_gap o step (x.e + 1) (y.s) hs ax.2.1 ay.1
+        left
+        by_cases hle : x.e + 1 ≤ y.s
+        · omega
+        · exfalso
+          -- x.e + 1 > y.s: then y.s ≤ x.e - (step - 1) + (step - 1), impossible as x.e - (step-1) < y.s and both on the grid
+          have g2 := grid_gap o step (x.e - (step - 1)) y.s hs (by
+            have : x.e - (step - 1) - o = (x.e + 1 - o) - step := by omega
+            rw [this]; exact Int.dvd_sub ax.2.1 (Int.dvd_refl _)) ay.1 (by omega)
+          omega
+  have hperm := List.Perm.flatMap_right (sliceRanges step fp present) hp
+  refine merge_is_canonical step hs fp _ _ (hfam.perm hperm.symm) whole.2.2.2 ?_
+  intro t
+  rw [whole.2.2.1 t, covered_perm hperm t]
+  constructor
+  · rintro ⟨u, hu, h1, h2⟩
+    obtain ⟨k, rfl, hle, hpres⟩ := (gs_mem present o end_ step hs u).mp hu
+    obtain ⟨sl, hsl, hs1, hs2⟩ := ok.covers k hle
+    -- u is a grid point of that slice
+    have hd : step ∣ (o + (k : Int) * step - sl.s) := by
+      have : o + (k : Int) * step - sl.s = (k : Int) * step - (sl.s - o) := by omega
+      rw [this]; exact Int.dvd_sub (Int.dvd_mul_left _ _) (ok.aligned sl hsl)
+    obtain ⟨k', hk'⟩ := steps_of_dvd step _ hs hd (by omega)
+    have hu' : o + (k : Int) * step ∈ gridSamples present sl.s sl.e step :=
+      (gs_mem present sl.s sl.e step hs _).mpr ⟨k', by omega, hs2, hpres⟩
+    obtain ⟨x, hx, hx1, hx2⟩ := ((facts sl hsl).2.2.1 t).mpr ⟨_, hu', h1, h2⟩
+    exact ⟨x, List.mem_flatMap.mpr ⟨sl, hsl, by rw [hf sl]; exact hx⟩, hx1, hx2⟩
+  · rintro ⟨x, hx, h1, h2⟩
+    obtain ⟨sl, hsl, hx'⟩ := hmem x hx
+    obtain ⟨u, hu, hu1, hu2⟩ := ((facts sl hsl).2.2.1 t).mp ⟨x, hx', h1, h2⟩
+    obtain ⟨k', rfl, hle, hpres⟩ := (gs_mem present sl.s sl.e step hs u).mp hu
+    obtain ⟨c, hc⟩ := steps_of_dvd step _ hs (ok.aligned sl hsl) (by have := (ok.within sl hsl).1; omega)
+    refine ⟨sl.s + (k' : Int) * step, (gs_mem present o end_ step hs _).mpr ⟨c + k', ?_, ?_, hpres⟩, hu1, hu2⟩
+    · have : ((c + k' : Nat) : Int) * step = (c : Int) * step + (k' : Int) * step := by
+        rw [Int.natCast_add, Int.add_mul]
+      omega
+    · have := (ok.within sl hsl).2; omega
+
+/-! ### the slice plan of `RangeQuery` tiles the grid -/
+
+theorem chainFrom_starts (size : Int) (hsz : 0 ≤ size) (l : List TR) : ∀ k, ChainFrom size k l → ∀ x ∈ l, size ∣ (x.s - k) ∧ k ≤ x.s := by
+  induction l with
+  | nil => intro k _ x hx; simp at hx
+  | cons a rest ih =>
+    intro k h x hx
+    cases rest with
+    | nil =>
+      simp only [ChainFrom] at h
+      simp at hx; subst hx
+      rw [h]; simp
+    | cons b r =>
+      obtain ⟨h1, h2, h3⟩ := h
+      rcases List.mem_cons.mp hx with rfl | hx'
+      · rw [h1]; simp
+      · obtain ⟨d, hle⟩ := ih (k + size) h3 x hx'
+        refine ⟨?_, by omega⟩
+        have : x.s - k = (x.s - (k + size)) + size := by omega
+        rw [this]; exact Int.dvd_add d (Int.dvd_refl _)
+
+theorem trimEnds_mem (l : List TR) : ∀ x ∈ trimEnds l, ∃ y ∈ l, x.s = y.s ∧ x.e ≤ y.e := by
+  induction l with
+  | nil => intro x hx; simp [trimEnds] at hx
+  | cons a rest ih =>
+    intro x hx
+    cases rest with
+    | nil => simp [trimEnds] at hx; subst hx; exact ⟨x, by simp, rfl, Int.le_refl _⟩
+    | cons b r =>
+      simp only [trimEnds] at hx
+      rcases List.mem_cons.mp hx with rfl | hx'
+      · exact ⟨a, by simp, rfl, by simp only; omega⟩
+      · obtain ⟨y, hy, h1, h2⟩ := ih x hx'
+        exact ⟨y, List.mem_cons_of_mem _ hy, h1, h2⟩
+
+theorem trimEnds_head (l : List TR) (d : TR) : ((trimEnds l).headD d).s = (l.headD d).s := by
+  cases l with
+  | nil => rfl
+  | cons a rest =>
+    cases rest with
+    | nil => rfl
+    | cons b r => rfl
+
+theorem trimEnds_ordered (size : Int) (hsz : 1 ≤ size) (l : List TR) : ∀ k, ChainFrom size k l →
+    (trimEnds l).Pairwise fun a b => a.e < b.s := by
+  induction l with
+  | nil => intro _ _; simp [trimEnds]
+  | cons a rest ih =>
+    intro k h
+    cases rest with
+    | nil => simp [trimEnds]
+    | cons b r =>
+      obtain ⟨h1, h2, h3⟩ := h
+      simp only [trimEnds]
+      rw [List.pairwise_cons]
+      refine ⟨?_, ih (k + size) h3⟩
+      intro z hz
+      obtain ⟨y, hy, e1, _⟩ := trimEnds_mem _ z hz
+      have := (chainFrom_starts size (by omega) _ (k + size) h3 y hy).2
+      simp only; omega
+
+theorem sliceLoop_le (size end_ : Int) (fuel : Nat) : ∀ k, ∀ x ∈ sliceLoop fuel k end_ size, x.e ≤ end_ := by
+  induction fuel with
+  | zero => intro k x hx; simp [sliceLoop] at hx
+  | succ f ih =>
+    intro k x hx
+    simp only [sliceLoop] at hx
+    split at hx
+    · rcases List.mem_cons.mp hx with rfl | hx'
+      · simp only; split <;> omega
+      · exact ih _ x hx'
+    · simp at hx
+
+/-- contiguous slices from `head.s` to `last.e` leave no instant out -/
+theorem contig_covers (l : List TR) (u : Int) : Contig l → (∀ d, (l.headD d).s ≤ u) → l ≠ [] →
+    (∀ e, (l.getLast?).map (·.e) = some e → u ≤ e) → ∃ x ∈ l, x.s ≤ u ∧ u ≤ x.e := by
+  induction l with
+  | nil => intro _ _ h _; exact absurd rfl h
+  | cons a rest ih =>
+    intro hc hh _ hl
+    cases rest with
+    | nil =>
+      refine ⟨a, by simp, hh a, hl a.e (by simp)⟩
+    | cons b r =>
+      obtain ⟨h1, h2⟩ := hc
+      by_cases hle : u ≤ a.e
+      · exact ⟨a, by simp, hh a, hle⟩
+      · obtain ⟨x, hx, hx1, hx2⟩ := ih h2 (fun d => by simp only [List.headD_cons]; omega) (by simp)
+          (fun e he => hl e (by simpa [List.getLast?_cons_cons] using he))
+        exact ⟨x, List.mem_cons_of_mem _ hx, hx1, hx2⟩
+
+/-- the multi-slice branch of `sliceRange`: the untrimmed slices form a chain from some start, none ends after `end` -/
+theorem sliceRange_shape (start end_ res size : Int) (l : List TR) (h : sliceRange start end_ res size = some l)
+    (hgap : ¬ end_ - start ≤ res) :
+    ∃ U k0, l = trimEnds U ∧ ChainFrom size k0 U ∧ (∀ x ∈ U, x.e ≤ end_) ∧ 0 < size := by
+  unfold sliceRange at h
+  simp only [hgap, if_false] at h
+  split at h
+  · cases h
+  · rename_i hsize
+    simp only [Option.some.injEq] at h
+    subst h
+    have hle := sliceLoop_le size end_ ((end_ - roundTime start size) / size + 2).toNat (roundTime start size)
+    by_cases hr : roundTime start size > start
+    · simp only [hr, if_true]
+      refine ⟨_, roundTime start size - size, rfl, ?_, ?_, by omega⟩
+      · have hc := sliceLoop_chain size end_ ((end_ - roundTime start size) / size + 2).toNat (roundTime start size)
+        cases hl : sliceLoop ((end_ - roundTime start size) / size + 2).toNat (roundTime start size) end_ size with
+        | nil => simp [ChainFrom]
+        | cons y r =>
+          rw [hl] at hc
+          have hlt : roundTime start size < end_ := by
+            cases hf : ((end_ - roundTime start size) / size + 2).toNat with
+            | zero => rw [hf] at hl; simp [sliceLoop] at hl
+            | succ f =>
+              rw [hf] at hl
+              simp only [sliceLoop] at hl
+              split at hl
+              · assumption
+              · cases hl
+          refine ⟨rfl, ?_, ?_⟩
+          · simp only []; split <;> omega
+          · have : roundTime start size - size + size = roundTime start size := by omega
+            rw [this]; exact hc
+      · intro x hx
+        rcases List.mem_append.mp hx with h1 | h2
+        · simp at h1; subst h1; simp only; split <;> omega
+        · exact hle x h2
+    · simp only [hr, if_false, List.nil_append]
+      exact ⟨_, roundTime start size, rfl, sliceLoop_chain size end_ _ _, hle, by omega⟩
+
+theorem single_ok (start end_ step : Int) (hs : 1 ≤ step) : SlicesOK start step end_ [⟨start, end_⟩] := by
+  refine ⟨?_, by simp, ?_, ?_⟩
+  · intro sl hsl; simp at hsl; subst hsl; simp
+  · intro sl hsl; simp at hsl; subst hsl; exact ⟨Int.le_refl _, Int.le_refl _⟩
+  · intro k hk
+    have : (0 : Int) ≤ (k : Int) * step := Int.mul_nonneg (by omega) (by omega)
+    exact ⟨⟨start, end_⟩, by simp, by simp only; omega, hk⟩
+
+/-- the plan `RangeQuery` makes tiles the grid that starts at its first slice -/
+theorem plan_ok (start end_ lookback step : Int) (hs : 1 ≤ step) (slices : List TR)
+    (h : plan start end_ lookback step = some slices) :
+    SlicesOK (slices.headD ⟨start, end_⟩).s step end_ slices := by
+  unfold plan at h
+  simp only [] at h
+  split at h
+  · cases h; exact single_ok start end_ step hs
+  · by_cases hgap : end_ - start ≤ step
+    · have : sliceRange start end_ step (sliceSize step) = some [⟨start, end_⟩] := by
+        unfold sliceRange; simp [hgap]
+      rw [this] at h; cases h
+      exact single_ok start end_ step hs
+    · obtain ⟨U, k0, rfl, hchain, hends, hq⟩ := sliceRange_shape start end_ step (sliceSize step) slices h hgap
+      have hlast := slices_reach_end start end_ step (sliceSize step) (by omega) _ h
+      have hcontig := slices_contiguous start end_ step (sliceSize step) _ h
+      have hne : trimEnds U ≠ [] := by
+        intro e; rw [e] at hlast; simp at hlast
+      have hUne : U ≠ [] := by
+        intro e; rw [e] at hne; exact hne rfl
+      have hdvd : step ∣ sliceSize step := Int.dvd_of_emod_eq_zero (slice_size_multiple_of_step step (by omega))
+      have hhead : ∀ d, ((trimEnds U).headD d).s = k0 := by
+        intro d
+        rw [trimEnds_head]
+        cases U with
+        | nil => exact absurd rfl hUne
+        | cons a rest =>
+          cases rest with
+          | nil => exact hchain
+          | cons b r => exact hchain.1
+      rw [hhead]
+      refine ⟨?_, trimEnds_ordered (sliceSize step) (by omega) U k0 hchain, ?_, ?_⟩
+      · intro sl hsl
+        obtain ⟨y, hy, e1, _⟩ := trimEnds_mem U sl hsl
+        rw [e1]
+        exact Int.dvd_trans hdvd (chainFrom_starts (sliceSize step) (by omega) U k0 hchain y hy).1
+      · intro sl hsl
+        obtain ⟨y, hy, e1, e2⟩ := trimEnds_mem U sl hsl
+        have := (chainFrom_starts (sliceSize step) (by omega) U k0 hchain y hy).2
+        have := hends y hy
+        omega
+      · intro k hk
+        have hk0 : (0 : Int) ≤ (k : Int) * step := Int.mul_nonneg (by omega) (by omega)
+        exact contig_covers (trimEnds U) _ hcontig (fun d => by rw [hhead d]; omega) hne
+          (fun e he => by rw [hlast] at he; simp at he; omega)
+
+/-- **C13, the statement at full strength** (`C13_statement`): for every start, end, lookback and step ≥ 1s, every
+presence pattern of a series and every arrival order of the slice answers, merging gives exactly the runs of one
+unsliced evaluation on the same grid. -/
+theorem C13_holds : C13_statement := by
+  intro start end_ lookback step fp present slices arrival hs hse hplan hperm
+  have ok := plan_ok start end_ lookback step hs slices hplan
+  exact sliced_eq_unsliced _ step end_ hs fp present slices arrival ok hperm
 
 end Pint.Props.C13
